@@ -320,7 +320,18 @@ fn bitmap_calls(t: &mut Tape, cx: &mut Cx) -> Result<(), String> {
     let page = t.pick(&[1usize, 3, 4096, 64, 7]);
     let pages = t.pick(&[0usize, 1, 65, 64, 4096, 2]);
     let byte_size = pages * page - if pages > 0 && t.flag() { t.idx(page) } else { 0 };
-    let bm = std::sync::Arc::new(AtomicBitmap::new(byte_size, NonZeroUsize::new(page).unwrap()));
+    let bm = if t.chance(1, 4) {
+        // created smaller and grown (in one or two steps) to the same size
+        let first = t.idx(byte_size + 1);
+        let mid = first + t.idx(byte_size - first + 1);
+        let mut b = AtomicBitmap::new(first, NonZeroUsize::new(page).unwrap());
+        b.enlarge(mid - first);
+        b.enlarge(byte_size - mid);
+        cx.label("grown_bitmap");
+        std::sync::Arc::new(b)
+    } else {
+        std::sync::Arc::new(AtomicBitmap::new(byte_size, NonZeroUsize::new(page).unwrap()))
+    };
     let a = xarg(t, byte_size);
     let b = xarg(t, byte_size);
     mark(cx, &[a as u64, b as u64]);
